@@ -109,10 +109,17 @@ theorem applyOp_frame {st st' : Store} {op : Op} {m : String}
     | some o =>
       simp only [hg, optE, bind, Except.bind, pure, Except.pure, Except.ok.injEq] at h
       subst h; exact Store.get_put_ne _ _ _ _ hm
+  | mapset a key k v =>
+    simp only [applyOp] at h
+    cases hg : st.get a with
+    | none => simp [hg, optE, bind, Except.bind] at h
+    | some o =>
+      simp only [hg, optE, bind, Except.bind, pure, Except.pure, Except.ok.injEq] at h
+      subst h; exact Store.get_put_ne _ _ _ _ hm
 
 /-- non-vacuity: recycling `y` leaves `x` as it was -/
 example :
-    let st : Store := [("x", ⟨[97, 99], none⟩), ("y", ⟨[103], none⟩)]
+    let st : Store := [("x", ⟨[97, 99], none, []⟩), ("y", ⟨[103], none, []⟩)]
     ∀ st', applyOp st (.recycle "y") = .ok st' → st'.get "x" = st.get "x" ∧ (st'.get "y").map (·.seq) = some [] := by
   intro st st' h
   refine ⟨applyOp_frame h (by decide), ?_⟩
@@ -139,8 +146,9 @@ theorem no_alias (ops : List Op) (st st' : Store) (m : String)
 /-- non-vacuity: a history that copies `x` to `y`, reverse-complements `y` in place, cuts `z` out of
 `y`, mutates and recycles `y` succeeds, and `x` is untouched -/
 example :
-    let st0 : Store := [("x", ⟨[97, 99, 103, 116], some [1, 2, 3, 4]⟩)]
-    let ops := [Op.copy "x" "y", Op.rci "y", Op.sub "y" "z" 1 3 false, Op.set "y" 0 110, Op.recycle "y"]
+    let st0 : Store := [("x", ⟨[97, 99, 103, 116], some [1, 2, 3, 4], [("merged_sample", [("s1", 3)])]⟩)]
+    let ops := [Op.copy "x" "y", Op.rci "y", Op.sub "y" "z" 1 3 false, Op.mapset "y" "merged_sample" "s1" 100,
+      Op.set "y" 0 110, Op.recycle "y"]
     ∃ st', ops.foldlM applyOp st0 = .ok st' ∧ st'.get "x" = st0.get "x" ∧
       (st'.get "y").map (·.seq) = some [] ∧ (st'.get "z").map (·.seq) = some [99, 103] := by
   intro st0 ops
